@@ -144,7 +144,9 @@ def check(world, plans, results):
             if cons[-1] in vs and len(vs) == 1:
                 v.probe("reject_last_file")
     v.nontrivial = len(cons) >= 2
-    v.sig = sig_of(read["ep"], len(cons), sorted(set(sigs)))
+    from . import c01 as _c01
+    tsig = _c01.layered_signature(world, model) if read["ep"] != "readFile" and model else "single"
+    v.sig = sig_of(read["ep"], len(cons), sorted(set(sigs)), tsig)
     v.probe("executions", len(results))
     return v
 
